@@ -508,7 +508,11 @@ class Interp:
     def call_path(self, path, callee, args, depth, caller=None):
         self.cur_env = caller.env if caller is not None else {}
         for key, fn in self.models.items():
-            if key in path or (callee and (key in callee["path"] or key in callee.get("full", ""))):
+            if key.startswith("$"):
+                hit = path.endswith(key[1:]) or bool(callee and callee["path"].endswith(key[1:]))
+            else:
+                hit = key in path or bool(callee and key in callee["path"])
+            if hit:
                 r = fn(self, args, callee, depth)
                 if r is not NotImplemented:
                     return r
@@ -520,7 +524,11 @@ class Interp:
         cenv = caller.env if caller is not None else {}
         b = self.prog.bodies.get(path)
         if b is not None and not (callee and callee.get("trait") and not callee.get("res") and b.impl_trait is None and callee["path"] == path and self._is_decl_only(b)):
-            return self.call_body(b, args, depth + 1, env=self.bind_env(b, callee, cenv))
+            env = self.bind_env(b, callee, cenv)
+            for k, v in self.infer_env(b, args).items():
+                if not isinstance(env.get(k), int):
+                    env[k] = v
+            return self.call_body(b, args, depth + 1, env=env)
         if callee and callee.get("trait") and not callee.get("res"):
             tb = self.dispatch_trait(callee, args, cenv)
             if tb is not None:
@@ -541,6 +549,8 @@ class Interp:
         if not args:
             return env
         v = deref_all(self, args[0])
+        if not (isinstance(v, tuple) and v[0] in ("adt", "array")) and len(args) > 1:
+            v = deref_all(self, args[1])
         arr = None
         if isinstance(v, tuple) and v[0] == "adt" and v[3] and isinstance(v[3][0], tuple) and v[3][0][0] == "array":
             arr = v[3][0]
